@@ -124,7 +124,20 @@ func subscribe(srv *spy.VerifSpyServer, rng *rand.Rand, nf int) *sub {
 			e = s.filters[0] // repeated filter
 		}
 		s.filters = append(s.filters, e)
-		req.Filters = append(req.Filters, &spyv1.FilterEntry{Filter: &spyv1.FilterEntry_EmitterFilter{EmitterFilter: &spyv1.EmitterFilter{ChainId: publicrpcv1.ChainID(e.chain), EmitterAddress: hex.EncodeToString(e.addr[:])}}})
+		spelled := hex.EncodeToString(e.addr[:]) // hex is case-insensitive: clients write addresses in lower, upper or mixed case
+		switch rng.Intn(4) {
+		case 0:
+			spelled = strings.ToUpper(spelled)
+		case 1:
+			b := []byte(spelled)
+			for i := range b {
+				if rng.Intn(2) == 0 {
+					b[i] = strings.ToUpper(string(b[i]))[0]
+				}
+			}
+			spelled = string(b)
+		}
+		req.Filters = append(req.Filters, &spyv1.FilterEntry{Filter: &spyv1.FilterEntry_EmitterFilter{EmitterFilter: &spyv1.EmitterFilter{ChainId: publicrpcv1.ChainID(e.chain), EmitterAddress: spelled}}})
 	}
 	go func() { s.done <- srv.SubscribeSignedVAA(req, s.st) }()
 	return s
@@ -575,6 +588,7 @@ func main() {
 		for a := 0; a < 3; a++ {
 			e := emitter{chain: []uint16{2, 4, 255, 10}[c]}
 			e.addr[31] = byte(a + 1) // the same three addresses exist on every chain (bridges are deployed at one address on several chains)
+			e.addr[12], e.addr[13], e.addr[20] = 0xab, 0xcd, 0xef // hex letters: their spelling has a case
 			universe = append(universe, e)
 		}
 	}
